@@ -126,6 +126,16 @@ def run_scenario(entry, plan, container, seed, tid):
         est = entry["factory"]()
         est.fit(*args_fit)
         events.append({"op": "fit", "m": "", "efp": efp(est), "dfp": fp(caller), "rfp": 0})
+        if tid % 2 == 0:
+            # another estimator of the same kind and configuration is fitted on other data in between (an estimator owns
+            # what it learns: nothing is shared through the class or the module)
+            if kind == "series-transformer":
+                XO, yO = series_data(entry, seed + 50, container), None
+            elif kind == "forecaster":
+                XO, yO = series_data({"missing": False}, seed + 50), None
+            else:
+                XO, yO = panel_data(entry, seed + 50, container)
+            entry["factory"]().fit(*((XO,) if yO is None else (XO, yO if kind != "regressor" else np.asarray(yO, dtype=float))))
         for m in plan[1:]:
             r = call(est, m, X, inv_in)
             events.append({"op": "apply", "m": m, "efp": efp(est), "dfp": fp(caller), "rfp": fp(r)})
